@@ -163,6 +163,10 @@ fn parse_all(cx: &mut Ctx, line: &str, input: &str, oracle: bool) -> Option<(Str
                         let unq: String = v.clone().collect();
                         let disp = v.to_string();
                         let cow = v.to_cow();
+                        let cow2: std::borrow::Cow<str> = std::borrow::Cow::from(v.clone());
+                        if cow2 != unq {
+                            problems.push(format!("Cow::from(value) gives {:?} but character-by-character unquoting gives {:?}", cow2, unq));
+                        }
                         if unq != disp {
                             problems.push("Display and iterator disagree".into());
                         }
@@ -230,6 +234,8 @@ fn case_cow(cx: &mut Ctx, s: &str) {
         let u = Unquote::new(s);
         let a = u.to_string();
         let b = u.to_cow().to_string();
+        let b2 = std::borrow::Cow::<str>::from(u.clone()).to_string();
+        assert!(b2 == b, "Cow::from and to_cow disagree");
         let c: String = u.clone().collect();
         (a, b, c, u.is_quoted())
     });
@@ -362,7 +368,7 @@ fn all_strings(alpha: &[char], maxlen: usize, f: &mut dyn FnMut(&str)) {
 
 fn random_value(rng: &mut Rng, maxlen: u64) -> String {
     let n = rng.below(maxlen + 1);
-    let alpha = ['<', '>', ';', ',', '"', '\\', '=', ' ', '\n', 'a', 'Z', '9', '\u{e9}', '\u{20ac}', '\u{1f601}', '\t', '\r', '/', '\u{a0}'];
+    let alpha = ['<', '>', ';', ',', '"', '\\', '=', ' ', '\n', 'a', 'Z', '9', '\u{e9}', '\u{20ac}', '\u{1f601}', '\t', '\r', '/', '\u{a0}', '\u{b}', '\u{c}', '\u{85}', '\u{2003}', '\u{3000}', '\u{0}', '\u{7f}', '\u{1f}', '\u{2028}'];
     (0..n).map(|_| *rng.pick(&alpha)).collect()
 }
 
@@ -409,6 +415,68 @@ pub fn run(cx: &mut Ctx) {
         "<", "<>", "<a", "x", " ", ",", "<a>,", "<a>,,", "<a>;;,<b>",
     ] {
         case_parse(cx, s);
+    }
+
+    // ---- whitespace subtleties: ASCII vs Unicode whitespace (incl. multi-byte) and control characters
+    //      at the start of a link, around keys/values, and as whole values through the writer
+    {
+        let ws = ['\u{a0}', '\u{85}', '\u{2003}', '\u{3000}', '\u{b}', '\u{c}', '\u{1680}', '\u{2028}', '\u{202f}', '\u{205f}', ' ', '\t', '\n', '\r', '\u{0}', '\u{7f}', '\u{1f}'];
+        for &w in &ws {
+            for pat in ["{w}</a>;x=\"y\"", "</a>,{w}</b>", "</a>,{w}{w}</b>;k=v", "</a>;{w}k{w}={w}v{w}", "</a>;k=\"{w}\"", "{w}", "<{w}>;{w}", "</a>;k={w}v,{w}<b>", "a{w}</a>"] {
+                case_parse(cx, &pat.replace("{w}", &w.to_string()));
+            }
+            for val in [format!("{}", w), format!("abc{}", w), format!("{}abc", w), format!("a{}b", w), format!("{}{}", w, w)] {
+                let d: Doc = vec![("/t".into(), vec![AttrSpec::Plain("k".into(), val.clone()), AttrSpec::Quoted("q".into(), val.clone())]), ("/u".into(), vec![])];
+                case_write(cx, &d, false);
+                case_write(cx, &d, true);
+            }
+        }
+        // keys with non-ASCII whitespace (allowed by the writer's own assertion, which is ASCII-only)
+        for key in ["k\u{a0}", "\u{3000}k", "t\u{e9}mp"] {
+            let d: Doc = vec![("/s/t".into(), vec![AttrSpec::Plain(key.into(), "v".into()), AttrSpec::U16("n".into(), 7)])];
+            let line = format!("LF write 0 {}", doc_token(&d));
+            let r = guarded(|| {
+                let mut sink = FaultSink::new(None, false);
+                let ok = write_doc(&d, false, &mut sink);
+                (ok, sink.calls, sink.buf)
+            });
+            match r {
+                None => cx.case(&line, "panic"),
+                Some((ok, calls, buf)) => {
+                    cx.case(&line, &format!("{} {} {}", if ok { "ok" } else { "err" }, calls, hex(buf.as_bytes())));
+                    if !ok {
+                        cx.oracle_fail("C18", &line, "writer reports an error although the sink never failed");
+                    }
+                }
+            }
+        }
+    }
+    // ---- long attribute values: an escape (or none) at every offset of a long value, and fault
+    //      injection on documents with long values
+    {
+        for filler in ["x", "\u{1f600}", "\u{e9}"] {
+            for off in (0..140usize).chain([200, 255, 256, 300]) {
+                for esc in ["\"", "\\", ""] {
+                    let mut v: String = filler.repeat(off);
+                    v.push_str(esc);
+                    v.push('z');
+                    let d: Doc = vec![("/l".into(), vec![AttrSpec::Quoted("t".into(), v.clone())]), ("/m".into(), vec![AttrSpec::Plain("p".into(), v)])];
+                    let calls = case_write(cx, &d, off % 2 == 0);
+                    if filler == "x" && (off % 16 == 0 || off == 63 || off == 64 || off == 65 || off == 127 || off == 128) {
+                        let full = {
+                            let mut sink = FaultSink::new(None, false);
+                            let _ = guarded(|| write_doc(&d, off % 2 == 0, &mut sink));
+                            sink.buf
+                        };
+                        for k in (0..calls.min(12)).chain(calls.saturating_sub(6)..calls) {
+                            for persist in [false, true] {
+                                case_writef(cx, &d, off % 2 == 0, k, persist, &full);
+                            }
+                        }
+                    }
+                }
+            }
+        }
     }
 
     // ---- C17: exhaustive short strings over the structural alphabet
